@@ -39,6 +39,11 @@ def _is_matvec_pattern(pat):
     return len(a) == 2 and len(b) == 1 and len(o) == 1 and a[0] != a[1] and b == a[1] and o == a[0]
 
 
+def _is_ellipsis_index(idx, last):
+    """(..., last)"""
+    return isinstance(idx, tuple) and len(idx) == 2 and (idx[0] is Ellipsis or (isinstance(idx[0], T.Term) and idx[0].op in ("ellipsis", "Ellipsis"))) and (idx[1] is last if last is None else idx[1] == last and not isinstance(idx[1], bool))
+
+
 def _shape_expr(e, shapes):
     """Symbolic value of a shape expression (x.shape, x.shape[i], tuples of those)."""
     if isinstance(e, (tuple, list)):
@@ -72,6 +77,8 @@ def _shape_of(t, shapes):
             return a[:-1] if a[-1] == b[0] else None
         if len(b) == 2 and a[-1] == b[0]:
             return a[:-1] + (b[1],)
+        if len(b) == len(a) and len(b) > 2 and a[:-2] == b[:-2] and a[-1] == b[-2]:
+            return a[:-1] + (b[-1],)  # batched matrix product with equal batch axes
         return None
     if t.op in ("np.einsum", "linalg.einsum") and len(t.args) == 3 and _is_matvec_pattern(t.args[0]):
         a, b = _shape_of(t.args[1], shapes), _shape_of(t.args[2], shapes)
@@ -89,6 +96,10 @@ def _shape_of(t, shapes):
         idx = t.args[1] if isinstance(t.args[1], tuple) else (t.args[1],)
         if a is None:
             return None
+        if _is_ellipsis_index(t.args[1], None):
+            return a + ("1",)
+        if _is_ellipsis_index(t.args[1], 0):
+            return a[:-1] if a else None
         out, k = [], 0
         for i in idx:
             if i is None:
@@ -217,6 +228,11 @@ def _run_own(chk, S: Session):
                 contr = "matmul"
             if isinstance(cur, T.Term) and cur.op in ("np.einsum", "linalg.einsum") and len(cur.args) == 3 and cur.args[1] is chol and cur.args[2] is base and _is_matvec_pattern(cur.args[0]):
                 contr = "einsum"
+            # batched mat-vec spelled with a trailing unit axis: (L @ z[..., None])[..., 0]
+            if isinstance(cur, T.Term) and cur.op == "getitem" and _is_ellipsis_index(cur.args[1], 0) and isinstance(cur.args[0], T.Term) and cur.args[0].op == "matmul" and cur.args[0].args[0] is chol:
+                rhs = cur.args[0].args[1]
+                if isinstance(rhs, T.Term) and rhs.op == "getitem" and rhs.args[0] is base and _is_ellipsis_index(rhs.args[1], None):
+                    contr = "matmul with a trailing unit axis"
         r2.require(okm and contr is not None, f"{name} affine map", "mean + L @ base (offset = mean, Cholesky factor contracted over its white-noise axis with the draw, nothing else)", f"sample = {T.show(out, 5)}", qual)
         # one independent standard-normal per degree of freedom: the draw has as many entries as the mean, and L * draw has exactly the
         # mean's shape (a broadcast of the random term over an axis of the mean makes the components on that axis perfectly correlated)
